@@ -6,7 +6,9 @@
 //	L0 L1 BindLocalStream(s)             M0 M1 BindRemoteStream(s)
 //	l0 UnbindLocalStream(0)              m0 UnbindRemoteStream(0)
 //	T  traffic on everything bound       A  advance virtual time by 2 intervals
-//	C  Close                             H  Close while a downstream write is held in a gate
+//	C  Close                             H  Close while a downstream write / the dump stream is held
+//	X  Close while a NACK-triggered retransmission is held in the next writer
+//	Y  UnbindLocalStream(0) while a NACK-triggered retransmission is held
 //
 // are run inside a virtual-time bubble: ALL sequences up to length 3 (quick) / 4
 // (thorough) plus sampled longer ones. Every library call runs on a watched goroutine.
@@ -34,7 +36,7 @@ import (
 	"github.com/pion/interceptor/verif/zoo"
 )
 
-var alphabet = []string{"W", "R", "L0", "L1", "M0", "M1", "T", "l0", "m0", "C", "A"}
+var alphabet = []string{"W", "R", "L0", "L1", "M0", "M1", "T", "l0", "m0", "C", "A", "X", "Y"}
 
 const interval = 20 * time.Millisecond
 
@@ -257,14 +259,29 @@ func execute(c *vf.Case, kind zoo.Kind, seq []string) *run11 {
 			if rn.closed {
 				continue // a second Close is not part of the contract
 			}
-			rn.close(false)
+			rn.close(holdNone)
 			hasClose = true
 		case "H":
 			if rn.closed {
 				continue
 			}
-			rn.close(true)
+			rn.close(holdAppTraffic)
 			hasClose = true
+		case "X":
+			if rn.closed {
+				continue
+			}
+			rn.close(holdRetransmission)
+			hasClose = true
+		case "Y":
+			if rn.closed || !rn.locals[0].bound {
+				continue
+			}
+			release := rn.parkRetransmission()
+			rn.unbind(rn.locals[0])
+			release()
+			synctest.Wait()
+			hasUnbind = true
 		}
 	}
 	if !rn.stuck && !rn.closed {
@@ -279,7 +296,7 @@ func execute(c *vf.Case, kind zoo.Kind, seq []string) *run11 {
 			}
 		}
 		if !rn.stuck {
-			rn.close(false)
+			rn.close(holdNone)
 		}
 	}
 	if !rn.stuck {
@@ -536,22 +553,119 @@ func (rn *run11) traffic() {
 	}
 }
 
-func (rn *run11) close(withHeldWrite bool) {
-	var heldCall *rig.Pending
-	if withHeldWrite {
-		// hold a downstream RTP write in the gate, then Close from the driver
+const (
+	holdNone = iota
+	holdAppTraffic
+	holdRetransmission
+)
+
+// parkRetransmission: with packets in the responder's buffer, a NACK for four of them is read
+// while the next writer holds every write; the goroutine serving the NACK is then parked inside
+// the first retransmission. Returns the function that releases the hold.
+func (rn *run11) parkRetransmission() (release func()) {
+	s := rn.locals[0]
+	if s.bound && s.w != nil && !rn.closed {
+		for k := 0; k < 4; k++ {
+			h := rn.header(s)
+			payload := gen.Payload(rn.c.R, 40, rn.nextID)
+			rn.nextID++
+			w := s.w
+			s.sentSinceBind++
+			rn.pending = append(rn.pending, rn.rg.Go("write-rtp", func() { _, _ = w.Write(&h, payload, interceptor.Attributes{}) }))
+			synctest.Wait()
+		}
+	}
+	rn.holdMu.Lock()
+	rn.hold = make(chan struct{})
+	ch := rn.hold
+	rn.holdMu.Unlock()
+	if rn.rBound && rn.rg.RTCPR != nil {
+		nack := &rtcp.TransportLayerNack{SenderSSRC: 9, MediaSSRC: s.opts.SSRC,
+			Nacks: []rtcp.NackPair{{PacketID: s.seq - 3, LostPackets: 0b111}}}
+		b, _ := rtcp.Marshal([]rtcp.Packet{nack})
+		rn.rg.RTCPIn.Push(obs.FeedItem{Data: b})
+		rd := rn.rg.RTCPR
+		p := rn.rg.Go("read-rtcp", func() {
+			buf := make([]byte, 1500)
+			_, _, _ = rd.Read(buf, interceptor.Attributes{})
+		})
+		synctest.Wait()
+		if !p.Finished() {
+			rn.pendingBeforeClose = append(rn.pendingBeforeClose, p)
+		}
+		rn.c.Add("nack_served_while_next_writer_holds", 1)
+	}
+	return func() {
+		rn.holdMu.Lock()
+		if rn.hold == ch {
+			rn.hold = nil
+		}
+		rn.holdMu.Unlock()
+		close(ch)
+	}
+}
+
+func (rn *run11) close(mode int) {
+	var heldCalls []*rig.Pending
+	var releases []func()
+	switch mode {
+	case holdRetransmission:
+		releases = append(releases, rn.parkRetransmission())
+	case holdAppTraffic:
+		// hold the next RTP writer and the dump stream, issue two writes and two reads, then Close
+		rn.holdMu.Lock()
+		rn.hold = make(chan struct{})
+		ch := rn.hold
+		rn.holdMu.Unlock()
+		releases = append(releases, func() {
+			rn.holdMu.Lock()
+			if rn.hold == ch {
+				rn.hold = nil
+			}
+			rn.holdMu.Unlock()
+			close(ch)
+		})
+		if rn.b.RTPSink != nil {
+			releases = append(releases, rn.b.RTPSink.SetHold())
+		}
+		// one held write; two when a dump stream is held as well (the second then waits for the
+		// logger goroutine). Never two on a path that holds a mutex across the downstream write
+		// (gcc's no-op pacer): the second would wait for that mutex, which the harness's own hold
+		// keeps taken - a deadlock of the harness's making.
+		nHeld := 1
+		if rn.b.RTPSink != nil {
+			nHeld = 2
+		}
 		for _, s := range rn.locals {
 			if s.bound && s.w != nil {
-				rn.holdMu.Lock()
-				rn.hold = make(chan struct{})
-				rn.holdMu.Unlock()
-				h := rn.header(s)
-				w := s.w
-				payload := gen.Payload(rn.c.R, 40, rn.nextID)
-				rn.nextID++
-				heldCall = rn.rg.Go("write-rtp-held", func() { _, _ = w.Write(&h, payload, interceptor.Attributes{}) })
-				synctest.Wait()
+				for k := 0; k < nHeld; k++ {
+					h := rn.header(s)
+					w := s.w
+					payload := gen.Payload(rn.c.R, 40, rn.nextID)
+					rn.nextID++
+					s.sentSinceBind++
+					heldCalls = append(heldCalls, rn.rg.Go("write-rtp-held", func() { _, _ = w.Write(&h, payload, interceptor.Attributes{}) }))
+					synctest.Wait()
+				}
 				break
+			}
+		}
+		if rn.b.RTPSink != nil {
+			for _, s := range rn.remotes {
+				if s.bound && s.r != nil {
+					for k := 0; k < 2; k++ {
+						h := rn.header(s)
+						b, _ := (&rtp.Packet{Header: h, Payload: rn.c.R.Bytes(30)}).Marshal()
+						s.feed.Push(obs.FeedItem{Data: b})
+						rd := s.r
+						heldCalls = append(heldCalls, rn.rg.Go("read-rtp-held", func() {
+							buf := make([]byte, 1500)
+							_, _, _ = rd.Read(buf, interceptor.Attributes{})
+						}))
+						synctest.Wait()
+					}
+					break
+				}
 			}
 		}
 	}
@@ -560,15 +674,12 @@ func (rn *run11) close(withHeldWrite bool) {
 		rn.closeStamp = rn.rg.Clk.Tick()
 	})
 	synctest.Wait()
-	// a second traffic call issued during Close
-	if heldCall != nil {
-		rn.c.Add("close_with_write_in_flight", 1)
-		rn.holdMu.Lock()
-		if rn.hold != nil {
-			close(rn.hold)
-			rn.hold = nil
+	// release what was held: Close may legitimately have waited for it
+	if len(releases) > 0 {
+		rn.c.Add("close_with_calls_held_in_flight", 1)
+		for _, rel := range releases {
+			rel()
 		}
-		rn.holdMu.Unlock()
 		synctest.Wait()
 	}
 	if !p.Finished() {
@@ -587,8 +698,10 @@ func (rn *run11) close(withHeldWrite bool) {
 		return
 	}
 	rn.closed = true
-	if heldCall != nil && !heldCall.Finished() {
-		rn.pendingBeforeClose = append(rn.pendingBeforeClose, heldCall)
+	for _, hc := range heldCalls {
+		if !hc.Finished() {
+			rn.pendingBeforeClose = append(rn.pendingBeforeClose, hc)
+		}
 	}
 	rn.checkPendingAllDone("released-by-close")
 }
@@ -715,6 +828,21 @@ func (rn *run11) checkAfterUnbind(s *stream, until int64) {
 		}
 	}
 	rn.c.Add("unbind_windows_checked", 1)
+	if s.local && s.gate != nil && rn.kind != zoo.Pacing && rn.kind != zoo.CCLeakyBucket {
+		// (pacers deliver media they accepted before the Unbind: that is C17's business, not a
+		// report or feedback about the stream)
+		// nothing may be written to the unbound stream's next writer any more (the application
+		// does not write on it; a retransmission that was already inside the writer when Unbind
+		// returned carries an entry stamp before the unbind)
+		for _, ev := range s.gate.Events() {
+			if ev.Stamp > s.unbindStamp && ev.Stamp <= until {
+				rn.c.Violation(fmt.Sprintf("emit-after-unbind/%s/rtp", rn.kind),
+					"sequence %v: an RTP packet (ssrc %d pt %d seq %d) was written to the next writer of local stream %d after its Unbind had returned",
+					rn.seq, ev.Header.SSRC, ev.Header.PayloadType, ev.Header.SequenceNumber, s.opts.SSRC)
+				break
+			}
+		}
+	}
 	if n > 1 {
 		side := "remote"
 		if s.local {
